@@ -65,12 +65,17 @@ def gen(rng, tier):
     for _ in range(rng.randint(1, 5)):
         ti = rng.randrange(nT) if rng.random() > 0.5 else 0
         adds.append([rng.randrange(nS), ti, root_for(rng, doc, sub, rng.choice(["concrete", "concrete", "non-concrete", "empty"]))])
-    return {"S": Ss, "T": Ts, "adds": adds, "doc": doc}
+    out = {"S": Ss, "T": Ts, "adds": adds, "doc": doc}
+    if rng.random() < 0.25:
+        out["nested"] = True
+    return out
 
 
 def strata(tier):
     for j in range(120 if tier == "quick" else 600):
         yield gen(G.rng_for("C18-strata", j), tier)
+        if j % 2 == 0:
+            yield dict(gen(G.rng_for("C18-strata", j), tier), nested=True)
     # the classic: the same T twice under two roots
     T = [{"path": PC.mkpath([{"p": "prim", "v": "x"}]), "cond": PC.L("value", "equal_to", 1), "cast": None, "doc": None}]
     doc = {"r": {"x": 1}, "q": {"x": 2}}
@@ -110,8 +115,59 @@ def model_beh(terms, doc):
             tuple(sorted(repr(canon(tuple(p))) for r in m["per_rule"] for p, _ in r["failures"])), canon(m["cast_data"]))
 
 
+def reroot(root, rules):
+    return [dict(r, path=PC.mkpath(root["parts"] + r["path"]["parts"])) for r in rules]
+
+
+def run_nested(case, ctx):
+    """T (already used on a document) is added to M, M to S, and only then T grows: S is M's rules re-rooted, which are T's
+    rules re-rooted twice, and nothing that happens to T afterwards reaches S"""
+    import valida
+    doc = case["doc"]
+    St, Mt, Tt, Ut = case["S"][0], case["S"][-1] if len(case["S"]) > 1 else [], case["T"][0], case["T"][-1]
+    r1, r2 = case["adds"][0][2], case["adds"][-1][2]
+    if r1.get("datum") or r1.get("multi") or r2.get("datum") or r2.get("multi"):
+        return
+    ok, objs = call(lambda: [build.schema_obj(x) for x in (St, Mt, Tt, Ut)])
+    if not ok:
+        ctx.violate(f"C18/construct:{objs.type}", f"{objs!r}")
+        return
+    S, Mo, T, U = objs
+    for d in (doc, doc.get("r") if type(doc) is dict else doc[0]):
+        call(T.validate, M.deep_copy(d))  # T has been used before it is added
+    call(T.to_json_like)
+    steps = [("M.add_schema(T, r1)", lambda: Mo.add_schema(T, build.path_obj(r1))), ("S.add_schema(M, r2)", lambda: S.add_schema(Mo, build.path_obj(r2))),
+             ("T.add_schema(U, r1)", lambda: T.add_schema(U, build.path_obj(r1)))]
+    for name, fn in steps:
+        okx, e = call(fn)
+        if not okx:
+            ctx.violate(f"C18/{e.key()}/nested", f"{name} raised {e!r}")
+            return
+    M_terms = M.sort_rules(M.sort_rules(list(Mt)) + reroot(r1, M.sort_rules(list(Tt))))
+    S_terms = M.sort_rules(M.sort_rules(list(St)) + reroot(r2, M_terms))
+    ctx.count("nested-additions")
+    exp_rules = [build.rule_obj(r) for r in S_terms]
+    got = S.rules
+    if len(got) != len(exp_rules) or not all(tuple(g.path.parts) == tuple(e.path.parts) and g.condition == e.condition
+                                              and (g.cast or None) == (e.cast or None) for g, e in zip(got, exp_rules)):
+        ctx.violate("C18/rules/nested", f"S after M.add(T, r1); S.add(M, r2); T.add(U, r1): S.rules = {[r.path for r in got]!r}\n expected {[r.path for r in exp_rules]!r}")
+        return
+    b, mb = beh(S, doc), model_beh(S_terms, doc)
+    if b[0] == "raise":
+        ctx.violate(f"C18/escape:{b[1]}@{b[2]}/nested", "S.validate raised after nested additions")
+    elif mb is not None and b != mb:
+        ctx.violate("C18/behaviour/nested", f"after nested additions S.validate gives {str(b)[:300]}\n model {str(mb)[:300]}")
+    Mb, Mm = beh(Mo, doc), model_beh(M_terms, doc)
+    if Mb[0] != "raise" and Mm is not None and Mb != Mm:
+        ctx.violate("C18/behaviour/nested", f"M (which received T before T grew) validates as {str(Mb)[:300]}\n model {str(Mm)[:300]}")
+    for name, detail in mon.CONTRACTS.take():
+        ctx.violate(f"C18/contract:{name}", detail)
+
+
 def run(case, ctx):
     import valida
+    if case.get("nested"):
+        return run_nested(case, ctx)
     doc = case["doc"]
     # the first receiving schema is built from a list the caller keeps (and builds a second,
     # sibling schema from): neither the caller's list nor the sibling may change with the additions
